@@ -43,10 +43,13 @@ Proof.
   destruct x as [v sq|sq|v sq].
   - apply (Hentry v sq); reflexivity.
   - apply claims_mono; sproj; auto. unfold pipe; sproj. intros y Hy. rewrite Hkq. rewrite <- app_assoc in Hy. exact Hy.
-  - rewrite Hrr. destruct (idx_get (kidx s)).
-    + apply (Hentry v sq); reflexivity.
-    + apply claims_mono; sproj; auto. unfold pipe; sproj. intros y Hy. rewrite Hkq. apply in_app_or in Hy. apply in_or_app.
-      destruct Hy; [left|right; right]; auto.
+  - rewrite Hrr.
+    assert (Hdrop : forall y, In y (claims (set_q s q)) -> In y (claims s)).
+    { apply claims_mono; sproj; auto. unfold pipe; sproj. intros y Hy. rewrite Hkq. apply in_app_or in Hy. apply in_or_app.
+      destruct Hy; [left|right; right]; auto. }
+    destruct (idx_get (kidx s)) as [[[sq1 v1] b1]|]; [|exact Hdrop].
+    destruct (sq1 =? sq); [|exact Hdrop].
+    apply (Hentry v sq); reflexivity.
 Qed.
 
 Lemma claims_complete_sub s : forall y, In y (claims (do_complete s)) -> In y (claims s).
